@@ -158,7 +158,7 @@ func runStalls(c *Ctx, sh *shared, dir string) {
 		return
 	}
 	defer func() { a.Stop(); a.KillStrays() }()
-	if !waitPing(a.Sock, b.ID, 30*time.Second) {
+	if !waitPing(a.Sock, b.ID, 90*time.Second) {
 		fail("node A never reaches node B", "harness-mesh")
 		return
 	}
@@ -257,7 +257,7 @@ func runStalls(c *Ctx, sh *shared, dir string) {
 			continue
 		}
 		for _, p := range []int{0, 3000, len(want)} {
-			got, ended, err := WorkResults(a.Sock, r.unitA, int64(p), 8*time.Second)
+			got, ended, err := WorkResults(a.Sock, r.unitA, int64(p), 20*time.Second)
 			sh.mu.Lock()
 			sh.im.Count(fmt.Sprintf("stalls/unit%d/results/%d", i, p), true)
 			if err != nil || !ended || !bytes.Equal(got, want[p:]) {
